@@ -25,6 +25,8 @@ func main() {
 		os.Exit(pairsMain(os.Args[2:]))
 	case "tpairs":
 		os.Exit(tpairsMain(os.Args[2:]))
+	case "qscan":
+		os.Exit(qscanMain(os.Args[2:]))
 	case "delays":
 		os.Exit(delaysMain(os.Args[2:]))
 	case "meta":
@@ -149,6 +151,9 @@ func runScenarioCounted(sc Scenario, dir string) ([]verif.Event, *RunResult) {
 
 func countingSink(store *[]verif.Event) func(verif.Event) {
 	return func(e verif.Event) {
+		if strings.HasPrefix(e.Ev, "QS") {
+			return // the queue-scan scheduler ticks whether or not anything moves: neither activity nor part of these traces (see qscan.go)
+		}
 		*store = append(*store, e)
 		if !strings.HasPrefix(e.Ev, "H") {
 			atomic.AddInt64(&evCount, 1)
